@@ -35,6 +35,14 @@ mx = lambda *a: V(E + "::Max", [LV(list(a))])
 mn = lambda *a: V(E + "::Min", [LV(list(a))])
 
 
+lnot = lambda a: V(E + "::Not", [a])
+land = lambda *a: V(E + "::And", [LV(list(a))])
+lor = lambda *a: V(E + "::Or", [LV(list(a))])
+lxor = lambda a, b: V(E + "::Xor", [a, b])
+limp = lambda a, b: V(E + "::Implies", [a, b])
+liff = lambda a, b: V(E + "::Iff", [a, b])
+
+
 def text(v):
     return v.text() if isinstance(v, Rp) else v
 
@@ -56,6 +64,16 @@ def value(e, env):
         o = e.args[0].path.rsplit("::", 1)[-1]
         a, b = value(e.args[1], env), value(e.args[2], env)
         return {"Add": a + b, "Sub": a - b, "Mul": a * b}[o] if o != "Div" else a / b
+    # logic: an operand is true when it is not zero, the value of a logic form is 1 or 0
+    tb = lambda z: Fr(1) if z else Fr(0)
+    if k == "Not":
+        return tb(value(e.args[0], env) == 0)
+    if k in ("And", "Or"):
+        vs = [value(z, env) != 0 for z in e.args[0].items]
+        return tb(all(vs) if k == "And" else any(vs))
+    if k in ("Xor", "Implies", "Iff"):
+        a, b = value(e.args[0], env) != 0, value(e.args[1], env) != 0
+        return tb({"Xor": a != b, "Implies": (not a) or b, "Iff": a == b}[k])
     raise KeyError(k)
 
 
@@ -72,6 +90,12 @@ def show(e):
         return "%s{%s}" % (k.lower(), ", ".join(show(z) for z in e.args[0].items))
     if k == "UnOp":
         return "-(%s)" % show(e.args[1])
+    if k == "Not":
+        return "not(%s)" % show(e.args[0])
+    if k in ("And", "Or"):
+        return "(%s)" % (" %s " % k.lower()).join(show(z) for z in e.args[0].items)
+    if k in ("Xor", "Implies", "Iff"):
+        return "(%s %s %s)" % (show(e.args[0]), k.lower(), show(e.args[1]))
     o = {"Add": "+", "Sub": "-", "Mul": "*", "Div": "/"}[e.args[0].path.rsplit("::", 1)[-1]]
     return "(%s %s %s)" % (show(e.args[1]), o, show(e.args[2]))
 
@@ -255,7 +279,7 @@ def grid(d):
     while z <= hi:
         pts.append(z)
         z += Fr(1)
-    pts += [Fr(lo) + Fr(1, 3), Fr(hi) - Fr(1, 2)]
+    pts += [Fr(lo) + Fr(1, 3), Fr(hi) - Fr(1, 2), Fr(lo), Fr(hi)]
     return sorted(set(p for p in pts if lo <= p <= hi))
 
 
@@ -325,6 +349,21 @@ def family(tier):
               ("self-implied | abs(x)-x<=0 ; x>=1", [(bop("Sub", ab(x), x), "LessOrEqual", 0.0, ""), (x, "GreaterOrEqual", 1.0, "")], x, "Min", box, box),
               ("self-implied | min(x,0)-x>=0 ; x>=1 ; y>=5", [(bop("Sub", mn(x, num(0)), x), "GreaterOrEqual", 0.0, ""), (x, "GreaterOrEqual", 1.0, ""), (y, "GreaterOrEqual", 5.0, "")], y, "Min", box, box),
               ("self-implied | abs(x)+x<=0 ; x>=2 ; x+y>=1", [(bop("Add", ab(x), x), "LessOrEqual", 0.0, ""), (x, "GreaterOrEqual", 2.0, ""), (bop("Add", x, y), "GreaterOrEqual", 1.0, "")], y, "Max", box, box)]
+    # operand ranges of a min / max that overlap by a hair: an operand may only be left out when it can never be the extreme
+    extra += [("near-touching | max(x,y)>=1", [(mx(x, y), "GreaterOrEqual", 1.0, "")], bop("Add", x, y), "Min", ("Real", 0.0, 1.0), ("Real", 0.999995, 2.0)),
+              ("near-touching | y+0>=max(x,y)-x", [(bop("Sub", mx(x, y), x), "LessOrEqual", 0.0, "")], y, "Max", ("Real", 0.0, 1.0), ("Real", 0.999995, 2.0)),
+              ("near-touching | min(x,y)<=1", [(mn(x, y), "LessOrEqual", 1.0, "")], bop("Add", x, y), "Max", ("Real", 1.0, 2.0), ("Real", 0.0, 1.000005)),
+              ("near-touching | 1e6*max(x,y)>=5", [(bop("Mul", num(1000000.0), mx(x, y)), "GreaterOrEqual", 5.0, "")], bop("Add", x, y), "Min", ("Real", 0.0, 0.000008), ("Real", 0.000001, 0.00002)),
+              ("near-touching | max(x,y)<=1.5 exact", [(mx(x, y), "Equal", 1.0, "")], x, "Max", ("Real", 0.0, 1.0), ("Real", 0.999995, 2.0))]
+    # logic operators over operands that are affine in a Boolean but not 0/1 valued (b/2, 0.25 + b/2, 0.3b): the operand is
+    # true when it is not zero; compiling is fine only if that is what the rows say, refusing is fine too
+    BO = ("Boolean",)
+    half = bop("Div", x, num(2))
+    for ll, le in (("not(x/2)", lnot(half)), ("(x/2) and y", land(half, y)), ("(0.25+x/2) or y", lor(bop("Add", num(0.25), half), y)), ("(0.3x) xor y", lxor(bop("Mul", num(0.3), x), y)), ("(x/2) implies y", limp(half, y)),
+                   ("y iff (1-x/2)", liff(y, bop("Sub", num(1), half))), ("not(1-x)", lnot(bop("Sub", num(1), x))), ("x and y", land(x, y))):
+        extra += [("fractional-logic | max 2*%s+3x-y" % ll, [(bop("Add", x, y), "LessOrEqual", 2.0, "")], bop("Sub", bop("Add", bop("Mul", num(2), le), bop("Mul", num(3), x)), y), "Max", BO, BO),
+                  ("fractional-logic | min 3*%s-x-y" % ll, [(bop("Add", x, y), "GreaterOrEqual", 0.0, "")], bop("Sub", bop("Sub", bop("Mul", num(3), le), x), y), "Min", BO, BO),
+                  ("fractional-logic | %s>=1" % ll, [(le, "GreaterOrEqual", 1.0, "")], bop("Add", x, y), "Min", BO, BO)]
     for label, cons_, obj_, opt_, dx_, dy_ in extra:
         out.append((label, cons_, obj_, opt_, dx_, dy_, label.split("| ")[1]))
     return out
@@ -356,7 +395,7 @@ def run(F, tier="quick"):
             # a refusal is not a wrong model; only refusals for a missing bound or a division are expected on this family
             e = r.args[0]
             kind = e.path.rsplit("::", 1)[-1] if isinstance(e, V) else str(e)
-            results.append((label, group, None if kind in ("MissingFiniteBounds",) else "refused", "refused with %s" % kind))
+            results.append((label, group, None if kind in ("MissingFiniteBounds", "NonBinaryLogicOperand") else "refused", "refused with %s" % kind))
             continue
         try:
             L = Lin(r.args[0])
@@ -499,6 +538,7 @@ def check_render(F, R, Gm, tier):
             bad.setdefault(("same-model", group), (label, pr))
     R.count("COMPILE-RENDER.models", len(comp))
     if not bad:
-        R.ob("COMPILE-RENDER", "all", len(comp) >= 50, "packages/rooc/src/transformers/linear_model.rs", "the rendering of all %d compiled linear models of the family is accepted and reads back as the model" % len(comp))
+        # too few compiled models means the compile step was not evaluable on this tree (COMPILE-EQUIV says why): nothing to render
+        R.ob("COMPILE-RENDER", "all", len(comp) >= 50, "packages/rooc/src/transformers/linear_model.rs", "the rendering of all %d compiled linear models of the family is accepted and reads back as the model%s" % (len(comp), "" if len(comp) >= 50 else " (not evaluable: the compile step produced too few models)"), undecided=len(comp) < 50)
     for (kind, group), (label, why) in sorted(bad.items())[:20]:
         R.ob("COMPILE-RENDER", "%s:%s" % (kind, group), False, "packages/rooc/src/transformers/linear_model.rs", "model [%s]: %s" % (label, why))
